@@ -41,6 +41,32 @@ pub fn gen_root(rng: &mut Rng) -> Game {
                 p = p.apply(m);
             }
             Game { start: p, moves: vec![], source: "promotion-template" }
+        } else if rng.chance(1, 4) {
+            // a position X seen twice (one there-and-back cycle), then 1..3 reversible quiet
+            // moves away from it: X can be re-entered - as a third occurrence, a draw - exactly
+            // 1..3 plies below the root, i.e. on the horizon of iteration 1..3
+            let x = workload::gen_position(rng);
+            let mut moves = workload::shuffle_game(rng, &x, 1, 0);
+            if moves.len() == 4 {
+                let mut p = x.clone();
+                let extra = 1 + rng.below(3);
+                for _ in 0..extra {
+                    let quiet: Vec<Mv> = p
+                        .legal_moves()
+                        .into_iter()
+                        .filter(|m| !p.is_capture(*m) && r::kind(p.sq[m.from as usize]) != r::PAWN && !p.is_castling(*m) && p.apply(*m).castle == p.castle)
+                        .collect();
+                    if quiet.is_empty() {
+                        break;
+                    }
+                    let m = *rng.pick(&quiet);
+                    p = p.apply(m);
+                    moves.push(m);
+                }
+            } else {
+                moves.clear();
+            }
+            Game { start: x, moves, source: "twice-seen-then-away" }
         } else if rng.chance(1, 2) {
             let p = workload::gen_position(rng);
             Game { start: p, moves: vec![], source: "no-history" }
